@@ -15,7 +15,6 @@ import RLV.Model.Scan
 import RLV.Model.Sel
 import RLV.Model.Term
 import RLV.Model.Tok
-import RLV.Model.Unesc
 import RLV.Model.Uni
 import RLV.Model.Utf8
 
@@ -116,7 +115,7 @@ def step (line : String) : String :=
       match ent.splitOn ":" with
       | [rs, act, m] => some (parseNats rs, ⟨if act == "_" then "" else act, m == "1"⟩)
       | _ => none
-    let e : Eng := { mainTbl := norm table, isEmacs := emacs == "1", registered := parseList regs "," }
+    let e : Eng := { mainTbl := norm table, isEmacs := emacs == "1", viInsert := emacs != "1", registered := parseList regs "," }
     let cs := (parseList chunks ",").map parseNats
     " ".intercalate (mainLoop e cs 64 [])
   | ["ins", l, pos, cs] => showG (Core.insert (parseNats l) (pos.toInt?.getD 0) (parseNats cs))
@@ -135,12 +134,7 @@ def step (line : String) : String :=
     | .error e => e.show
   | ["rnext", rs] =>
     let r : Inputrc.RS := (parseNats rs).toArray
-    match (do
-        let p ← Inputrc.findNonSpace r 0 r.size
-        if p == r.size then return none
-        let c ← Inputrc.idx r p
-        if c == 0 || c == 13 || c == 10 || c == 0x23 then return none
-        return some (← Inputrc.readNext r p r.size) : Core.G _) with
+    match Inputrc.scanLine r with
     | .error e => e.show
     | .ok none => "skip"
     | .ok (some (.error e)) => s!"err {e.name}"
@@ -226,7 +220,8 @@ def step (line : String) : String :=
       else if d == "e" then some .els else if d == "n" then some .endif
       else if d.startsWith "a" then (d.drop 1).toNat?.map .act else none
     showNats (Conds.runPinned ([true], []) dirs).2
-  | ["unesc", rs] => showNats (RLV.Inputrc.unescape id (parseNats rs))
+  | ["unesc", rs] => showNats (RLV.Esc.unescape (parseNats rs))
+  | ["esc", mac, rs] => showNats (RLV.Esc.escape (mac == "1") (parseNats rs))
   | _ => "bad-op"
 
 partial def loop (h : IO.FS.Stream) : IO Unit := do
